@@ -695,8 +695,11 @@ def _run_check(plugin, tier, seed):
     ev = {"property_id": plugin.ID, "tier": tier, "seed": seed, "level": getattr(plugin, "LEVEL", "proof"),
           "coverage": cov, "assumptions": list(getattr(plugin, "ASSUMPTIONS", [])), "wall_s": round(wall, 2),
           "violations": len(unknown) + (1 if (residual_broken and not unknown) else 0)}
-    (VERIF / "evidence").mkdir(exist_ok=True)
-    (VERIF / "evidence" / f"{plugin.ID}.json").write_text(json.dumps(ev, indent=1, default=str))
+    # evidence/<ID>.json describes runs against /repo itself; a run against a scratch tree (GAMA_REPO: mutation or
+    # seeded-change tests) writes to evidence/scratch/ instead (git-ignored), so it can never replace the real record
+    evdir = VERIF / "evidence" if REPO.resolve() == Path("/repo") else VERIF / "evidence" / "scratch"
+    evdir.mkdir(parents=True, exist_ok=True)
+    (evdir / f"{plugin.ID}.json").write_text(json.dumps(ev, indent=1, default=str))
     for l in viol_lines:
         print(l)
     ctx.log("done rc=%d wall=%.1fs" % (rc, wall))
